@@ -62,6 +62,7 @@ def run_cases(binary, lines, case_ms=4000, shards=common.NPROC, per_shard=120):
     cmd, pre = _cmd(binary)
     env = dict(os.environ)
     env["VERIF_CASE_MS"] = str(case_ms)
+    env["RUST_BACKTRACE"] = "0"      # an allocator abort otherwise symbolises a backtrace (slow, and not ours to time)
 
     def one(ix):
         res = {}
@@ -72,14 +73,13 @@ def run_cases(binary, lines, case_ms=4000, shards=common.NPROC, per_shard=120):
                                  env=env, preexec_fn=pre)
             hung = False
             try:
-                out, err = p.communicate(inp.encode(), timeout=case_ms / 1000.0 * 3 + 0.5 * len(todo) + 60)
+                out, err = p.communicate(inp.encode(), timeout=case_ms / 1000.0 * 10 + 1.0 * len(todo) + 120)
             except subprocess.TimeoutExpired:
                 p.kill()
                 out, err = p.communicate()
                 hung = True
-            outl = out.decode("utf-8", "replace").split("\n")
-            if outl and outl[-1] == "":
-                outl.pop()
+            # result lines are marked "@@\t"; anything else is the library's own printing to stdout
+            outl = [l[3:] for l in out.decode("utf-8", "replace").split("\n") if l.startswith("@@\t")]
             for i, l in zip(todo, outl):
                 res[i] = parse_line(l)
             k = len(outl)
@@ -205,7 +205,7 @@ def generic_cycle(g):
 
 
 def oracle_line(hits, env, start, ids):
-    h = "|".join(",".join(str(ids.of(x)) for x in hs) for hs in hits)
+    h = "|".join((",".join(str(ids.of(x)) for x in hs) if hs else "-") for hs in hits)
     e = ";".join("%d:%s" % (ids.of(n), ",".join("-" if t is None else str(ids.of(t)) for t in ts)) for n, ts in env)
     return "A\t%s\t%s\t%d" % (h, e, ids.of(start))
 
@@ -306,12 +306,13 @@ def classify(case, r, profile, graphs):
         g = graphs.get(schema)
         if g is None:
             return None
-        if v == "STACK":
+        if v in ("STACK", "TIMEOUT", "HANG"):
             # un-guarded is_ident_* / *_from_ident chasing: a name in a chase start position (control target /
             # controller, unwrap, bareword key) for which the Coq model's call does not return
+            # (release builds turn some of these recursions into loops: the call hangs instead of overflowing)
             if any(graphs.q.get((schema, "start", st), (True, "?", 0))[1] == "O" for st in g["starts"]):
                 return "kf-c05-alias-cycle-chase"
-            if cyclic(g["gcalt"]):
+            if v == "STACK" and cyclic(g["gcalt"]):
                 return "kf-c05-group-choice-alternate-cycle"
         if generic_cycle(g):
             return "kf-c05-generic-cycle"
@@ -895,6 +896,15 @@ def run(tier, seed):
     findings = {f["id"]: f for f in my_findings()}
     notes = res.notes
 
+    phases = {}
+    tp = [time.time()]
+
+    def phase(name):
+        phases[name] = round(phases.get(name, 0) + time.time() - tp[0], 1)
+        tp[0] = time.time()
+        if os.environ.get("VERIF_DEBUG"):
+            print("phase %-16s %6.1fs" % (name, phases[name]), flush=True)
+
     def judge(cases, results, profile, beyond=False):
         bad = [(c, r) for c, r in zip(cases, results) if r["v"] in FAIL]
         graphs.prefetch([c["schema"] for c, r in bad if c.get("schema") is not None and r["v"] != "PANIC" and c["ep"] in "JCV"])
@@ -917,11 +927,12 @@ def run(tier, seed):
 
     # ---- 0. the harness sees what it has to see ------------------------------------------
     for profile in ("release", "debug"):
-        st = run_cases(drv[profile], ["K\t0", "K\t1", "K\t2", "K\t3", "P\t" + hx("a = int")], case_ms=700)
+        st = run_cases(drv[profile], ["K\t0", "K\t1", "K\t2", "K\t3", "P\t" + hx("a = int")], case_ms=1000)
         got = [r["v"] for r in st]
         if got != ["PANIC", "STACK", "ALLOC", "TIMEOUT", "OK"]:
             res.violation("harness self-test (%s build): expected PANIC STACK ALLOC TIMEOUT OK, observed %s - crashes would go unnoticed" % (profile, got),
                           {"kind": "self-test", "observed": got}, no_input=True)
+    phase("prove+build+selftest")
     # ---- 1. replay of the open findings --------------------------------------------------
     for kid, kf in findings.items():
         w = kf["witness"]
@@ -942,6 +953,7 @@ def run(tier, seed):
             res.known(kf)
         else:
             notes.append("finding %s apparently repaired: its witness returns normally" % kid)
+    phase("replay-findings")
     # ---- 2. inputs ------------------------------------------------------------------------
     wit, wit_srcs = harvest_witnesses()
     heads = gen_heads(tier)
@@ -960,14 +972,19 @@ def run(tier, seed):
         k = (c["ep"], c["schema"])
         (rest if k in seen_se else first).append(c)
         seen_se.add(k)
-    alias_cases = gen_alias_family(rng, (1500 if quick else 40000) * (3 if wide else 1))
+    alias_cases = gen_alias_family(rng, (600 if quick else 40000) * (3 if wide else 1))
     # ---- 3. run ---------------------------------------------------------------------------
     t_run = time.time()
+    phase("generate")
     execute(wit, "release"); execute(wit, "debug")
+    phase("witnesses")
     execute(head_cases, "release")
     execute([c for c in head_cases if c["ep"] == "D" or not quick], "debug")
+    phase("heads")
     execute(depth_cases, "release"); execute(depth_cases, "debug")
+    phase("depth")
     rb = execute(beyond_cases, "release", beyond=True)
+    phase("beyond")
     r1 = execute(first, "release")
     hung = set((c["ep"], c["schema"]) for c, r in zip(first, r1) if r["v"] in ("TIMEOUT", "HANG", "ALLOC"))
     rest = [c for c in rest if (c["ep"], c["schema"]) not in hung]
@@ -975,6 +992,7 @@ def run(tier, seed):
     dbg = first if quick else first + rest
     dbg = [c for c in dbg if (c["ep"], c["schema"]) not in hung]
     execute(dbg, "debug")
+    phase("hostile")
     # outside the bound: where does depth start to hurt (reported, not judged)
     by = {}
     for c, r in zip(beyond_cases, rb):
@@ -985,36 +1003,50 @@ def run(tier, seed):
     # ---- 4. the Coq models predict the code -------------------------------------------------
     mismatches = 0
     #   4a. alias chasing: chase_seq = OutOfFuel  <->  stack overflow of validate_json_from_str
-    ids_lines = []
+    #        acyclic_alias = true (or no cycle reachable from the target) -> it returns (theorem C05_chase_seq_terminates_partial)
+    #        in between (a cycle is reachable but the first helper chain stops early): later helper calls decide; either outcome,
+    #        a failure must be a non-return
+    NONRET = ("STACK", "TIMEOUT", "HANG")
+    l_seq, l_any = [], []
     for c in alias_cases:
         ids = Ids()
-        ids_lines.append(oracle_line(c["hits"], c["env"], c["start"], ids))
-    pred = common.run_tool(orc, ids_lines)
-    obs = run_cases(drv["release"], [line_of(c) for c in alias_cases], case_ms=case_ms)
+        l_seq.append(oracle_line(c["hits"], c["env"], c["start"], ids))
+        l_any.append(oracle_line([[]], c["env"], c["start"], ids))
+    pred = common.run_tool(orc, l_seq)
+    pred_any = common.run_tool(orc, l_any)
+    obs = run_cases(drv["release"], [line_of(c) for c in alias_cases], case_ms=1000)
     pred_hist = {"Y": 0, "N": 0, "O": 0, "?": 0}
     acyc_hist = {"acyclic": 0, "cyclic": 0}
-    agree = {"predicted-overflow-observed": 0, "predicted-return-observed": 0}
-    for c, p, r in zip(alias_cases, pred, obs):
+    agree = {"predicted-nonreturn-observed": 0, "predicted-return-observed": 0, "undetermined-returned": 0, "undetermined-nonreturn": 0}
+    for c, p, pa, r in zip(alias_cases, pred, pred_any, obs):
         a, o, _ = (p.split(" ") + ["", "", ""])[:3]
+        oa = (pa.split(" ") + ["", ""])[1]
         pred_hist[o if o in pred_hist else "?"] += 1
         acyc_hist["acyclic" if a == "1" else "cyclic"] += 1
-        tally.add(c, r, "release", "kf-c05-alias-cycle-chase" if r["v"] == "STACK" and o == "O" else None)
-        if a == "1" and o == "O":
+        nonret = r["v"] in NONRET
+        tally.add(c, r, "release", "kf-c05-alias-cycle-chase" if nonret and oa == "O" else None)
+        if a == "1" and (o == "O" or oa == "O"):
             res.violation("oracle contradicts theorem C05_chase_seq_terminates_partial on %r" % c["schema"], {"kind": "oracle", "schema": c["schema"]}, no_input=True)
-        if o == "?":
+        if o == "?" or oa == "?":
             continue
-        if (o == "O") != (r["v"] == "STACK") or r["v"] in ("PANIC", "ALLOC", "TIMEOUT", "HANG", "CRASH"):
+        if r["v"] in ("PANIC", "ALLOC", "CRASH"):
             mismatches += 1
-            if o == "O":
-                res.violation("alias-chase model predicts that validate_json_from_str does not return (chase_seq = OutOfFuel) but it returned %s: schema %r doc %s"
-                              % (r["v"], c["schema"], c["doc"]), dict(replay_of(c, "release", r), predicted="O"))
-            else:
-                res.violation("validate_json_from_str: %s (%s) on a schema for which the alias-chase model returns (%s): schema %r doc %s"
-                              % (r["v"], r["detail"][:100], o, c["schema"], c["doc"]), dict(replay_of(c, "release", r), predicted=o))
+            res.violation("validate_json_from_str: %s (%s) on schema %r doc %s" % (r["v"], r["detail"][:100], c["schema"], c["doc"]), replay_of(c, "release", r))
+        elif o == "O" and not nonret:
+            mismatches += 1
+            res.violation("alias-chase model predicts that validate_json_from_str does not return (chase_seq = OutOfFuel) but it returned %s: schema %r doc %s"
+                          % (r["v"], c["schema"], c["doc"]), dict(replay_of(c, "release", r), predicted="O"))
+        elif oa != "O" and nonret:
+            mismatches += 1
+            res.violation("validate_json_from_str: %s on a schema whose control target reaches no alias cycle (model chase returns %s; acyclic_alias = %s): schema %r doc %s"
+                          % (r["v"], oa, a, c["schema"], c["doc"]), dict(replay_of(c, "release", r), predicted=oa))
+        elif o == "O":
+            agree["predicted-nonreturn-observed"] += 1
+        elif oa != "O":
+            agree["predicted-return-observed"] += 1
         else:
-            agree["predicted-overflow-observed" if o == "O" else "predicted-return-observed"] += 1
-    if "kf-c05-alias-cycle-chase" not in findings and agree["predicted-overflow-observed"]:
-        pass
+            agree["undetermined-nonreturn" if nonret else "undetermined-returned"] += 1
+    phase("alias-model")
     #   4b. partial arithmetic
     ar = gen_arith()
     ar_pred = common.run_tool(orc, [l for l, _ in ar], shards=1)
@@ -1038,6 +1070,7 @@ def run(tier, seed):
                 res.violation("%s (%s build): model says %s, %s returned %s %s on schema %r doc %s" %
                               (fam, profile, p, ENTRY[c["ep"]], got, r["detail"][:100], c["schema"], hx(c["doc"]) if isinstance(c["doc"], bytes) else c["doc"]),
                               dict(replay_of(c, profile, r), model=p))
+    phase("arith-model")
     #   4c. read_len: the chunked read returns what the model returns (and no allocation abort)
     rl = gen_readlen()
     rl_pred = common.run_tool(orc, [l for l, _ in rl], shards=4)
@@ -1057,6 +1090,7 @@ def run(tier, seed):
         if r["v"] != want:
             res.violation("decode_cbor(byte string head announcing %d bytes, %d present): model %s, implementation %s %s" % (c["n"], c["have"], p, r["v"], r["detail"][:80]),
                           dict(replay_of(c, "release", r), model=p))
+    phase("readlen-model")
     # ---- 5. growth: time at n, 2n, 4n -------------------------------------------------------
     growth = {}
     sizes = [16384, 32768, 65536]
@@ -1102,6 +1136,7 @@ def run(tier, seed):
                 c = glist[byn[sizes[2]]]
                 res.violation("%s on family %s needs %d us of cpu time for a 64 KiB input (budget 30 s)" % (ENTRY[ep], fam, ts[2]),
                               dict(replay_of(c, profile, {"v": "SLOW", "detail": str(ts)}), kind="budget"))
+    phase("growth")
     # ---- 6. unexplained failures are violations -----------------------------------------------
     seen_v = set()
     for c, r, profile in tally.unexplained:
@@ -1140,6 +1175,7 @@ def run(tier, seed):
     except RuntimeError as e:
         if proved:
             res.violation("vm_compute slice failed: %s" % str(e)[-300:], {"kind": "vm-slice"}, no_input=True)
+    phase("vm-slice")
     if not proved and not res.violations:
         res.violation(res.proof_broken, {"kind": "proof-obligation", "detail": res.proof_broken}, no_input=True)
     # ---- evidence ------------------------------------------------------------------------------
@@ -1165,6 +1201,7 @@ def run(tier, seed):
         "samples": [{"ep": c["ep"], "schema": c.get("schema"), "doc": c.get("doc") if not isinstance(c.get("doc"), bytes) else c["doc"].hex(), "family": c["fam"]}
                     for c in (first[:3] + alias_cases[:3] + head_cases[40:42])],
         "run_seconds": round(time.time() - t_run, 1),
+        "phase_seconds": phases,
     })
     res.assumptions = [
         "stack exhaustion, allocator aborts and panics inside dependencies are observed by running the driver (RLIMIT_AS 1 GiB, 8 MiB stack), not proven",
